@@ -4,19 +4,43 @@
 
   The model runs every listed operation as `step op : St → St × Res Out` over the observable state plus the hidden caches
   the operation touches (occupancy cache of a trajectory prediction, lanelet index, `_cycle_init_timesteps`).
-  `St.obs` blanks the hidden caches; two states are observably equal iff their `obs` are equal: this covers the attribute
-  lists of all states (names, order, values), predictions, obstacle lists, the lanelets, the lights and the goal-lanelet
-  tables with their dict kind, key set and key order.
+  `St` holds: every obstacle with its states as ordered attribute lists (names, order, value tokens) and its prediction;
+  every lanelet with successors, predecessors, obstacle registries and light references; the lights with cycle, offset and
+  activity; the planning problems with initial state, goal states (attributes with tokens) and goal-lanelet table (dict
+  kind, keys, key order); and `Extra`: one content token for every other public attribute of scenario, obstacles, lanelets,
+  signs, lights, intersections and network.  `St.obs` blanks the three hidden caches and nothing else.
+
+  `step` takes the variant of the code as an instance argument (`Sem`); the default instance is the code as it is
+  (`Sem.repaired`), so `step op s` below is about the repaired tree.  Where a theorem is about another variant it says
+  `(sem := Sem.legacy)` / `(sem := Sem.seeded)`.
+
+  Which operations can violate the frame in this model, i.e. where `C18_obs_frame` rests on a proof and not on the shape of
+  the definition:
+    * everything that evaluates `prediction.occupancy_set` (occupancy_at_time, occupancy_set, occupancies_at_time_step,
+      obstacles_by_position_intervals, map_obstacles_to_lanelets, get_obstacles, draw, the generic `reads`): the
+      computation runs as a transformer of the trajectory's state list and what it returns is stored back
+      (`C18_occupancy_computation_keeps_states`; `Sem.occWritesOrientation` breaks it: `C18_legacy_occupancy_query_changes_states`);
+    * both writers: the goal-lanelet table is threaded through every lookup (`C18_export_total`;
+      `Sem.pbIndexesTable` breaks it: `C18_legacy_pb_writer_inserts`, `C18_legacy_pb_writer_keyerror`);
+    * is_reached / goal_reached: run on an object store, slot 0 is written back (`C18_is_reached_state_untouched`,
+      `C18_goal_reached_states_untouched`; `Sem.harmonizeNoCopy` breaks it: `C18_seeded_is_reached_without_copy_witness`);
+    * dynamic_obstacle_by_time_step and the merge queries: the registries of the lanelet are written back
+      (`C18_pure_operations_identity`; `Sem.dynByTimeInserts`, `Sem.mergeInPlace` break it:
+      `C18_seeded_setdefault_inserts`, `C18_legacy_merge_changes_first_lanelet`).
+  For state_at_time, obstacle_states_at_time_step, find_lanelet_by_position / _by_shape, ==, hash, copy.copy the code
+  contains no assignment to anything reachable from the scenario and the model has none either; for the traffic-light
+  query, deepcopy and pickle the only assignments are to the hidden cache / index.  For these operations the frame is
+  definitional; what ties them to the code is the correspondence (state view after every step) and the oracle.
 -/
 import CRProofs.Frame
 namespace CR.Frame
 
-/-- C18 (a) **observation frame**: any single read-only operation — occupancy / state / lanelet / traffic-light query,
-    goal check, ==, hash, copy, deepcopy, pickle, draw (`reads`), XML or protobuf export — leaves every observable
-    attribute unchanged, whatever its arguments, whether it succeeds or raises. -/
+/-- C18 (a) **observation frame** of the code as it is: a single read-only operation — any of the 28 modelled kinds, with
+    any arguments, whether it succeeds or raises — leaves the observable state unchanged.  (Proof content per operation
+    kind: see the file header; definitional for the kinds listed there.) -/
 theorem C18_obs_frame (op : Op) (s : St) : (step op s).1.obs = s.obs := step_obs op s
 
-/-- C18 (a') for ALL sequences of read-only operations (induction over the sequence, no length bound). -/
+/-- C18 (a') for all finite sequences of modelled operations (induction over the sequence, no length bound). -/
 theorem C18_obs_frame_run (ops : List Op) (s : St) : (run ops s).obs = s.obs := run_obs ops s
 
 /-- every intermediate state of a run (what the driver's `trace` reports step by step) is observably the initial state -/
@@ -30,31 +54,44 @@ theorem C18_obs_frame_trace (ops : List Op) (s : St) : ∀ r ∈ trace ops s, r.
     · exact step_obs op s
     · rw [ih (step op s).1 r hr, step_obs]
 
-/-- C18 corollary: the goal-lanelet tables are literally the same tables afterwards (kind, keys, key order, values). -/
-theorem C18_goal_tables_unchanged (ops : List Op) (s : St) : (run ops s).problems = s.problems := by
-  have := congrArg St.problems (run_obs ops s)
-  exact this
+/-! ### The proof obligations behind the frame -/
 
-/-- C18 corollary: what the writers read from the obstacles (ids, populated attributes of every state with their values,
-    time steps, set-based occupancies) is unchanged. -/
-theorem C18_obstacle_content_unchanged (ops : List Op) (s : St) :
-    (run ops s).obstacles.map Obstacle.file = s.obstacles.map Obstacle.file := by
-  have := congrArg (fun x => x.obstacles.map Obstacle.file) (run_obs ops s)
-  simpa only [St.obs, map_file_obs] using this
+/-- C18 (a.1) the occupancy computation `_create_occupancy_set`, run as a transformer of the trajectory's state list, hands
+    every state back as it was — for every shape and every list of states, also when it raises half way — and what it
+    computes is `createOccs`. -/
+theorem C18_occupancy_computation_keeps_states (sh : Int) (ss : List TState) :
+    (createOccSet sh ss).1 = ss ∧ (createOccSet sh ss).2 = createOccs sh ss := by
+  rw [createOccSet_eq]
+  exact ⟨rfl, rfl⟩
 
-/-- C18 (b) **export_same**: exporting before and after any sequence of read-only operations gives the same file, for both
-    writers, with and without planning problems.  No assumption on the hidden caches. -/
-theorem C18_export_same (ops : List Op) (s : St) (wp : Bool) :
-    (step (.writeXml wp) (run ops s)).2 = (step (.writeXml wp) s).2 ∧
-    (step (.writePb wp) (run ops s)).2 = (step (.writePb wp) s).2 := by
-  constructor
-  · simp only [step]
-    rw [St.write_snd_congr goalLanelets true wp _ s (run_obs ops s)]
-  · simp only [step]
-    rw [St.write_snd_congr goalLanelets false wp _ s (run_obs ops s)]
+/-- C18 (a.2) `GoalRegion.is_reached(state)` hands the checked state back with the same attributes in the same order with
+    the same values — for a state passed in from outside as well as for one the scenario owns, for every goal region,
+    whatever the decisions, and also when the check raises.  (The check runs on an object store in which the copy made by
+    `_harmonize_state_types` and the rebuilt `CustomState` are separate slots; `(isReached …).1` is slot 0 afterwards.) -/
+theorem C18_is_reached_state_untouched (goals : List (List String)) (st : TState) (dec : List (Res Bool)) :
+    (isReached goals st dec).1 = st := isReached_fst goals st dec
 
-/-- C18 (b') the writers' goal-lanelet lookup never fails (no KeyError for a plain dict with missing keys) and the writer
-    hands back the state it was given, not merely an observably equal one. -/
+/-- C18 (a.3) `PlanningProblem.goal_reached(trajectory)`: every state of the trajectory is handed back as it was. -/
+theorem C18_goal_reached_states_untouched (goals : List (List String)) (ss : List TState) (ds : List (List (Res Bool))) :
+    (goalReachedStates goals ss ds).1 = ss := goalReachedStates_fst goals ss ds
+
+/-- C18 (a.4) goal checks (on own or foreign states), `Lanelet.dynamic_obstacle_by_time_step` and the merge queries return
+    exactly the state they were given: the states, the planning problem's initial state and the obstacle registries of
+    every lanelet that were threaded through the operation come back identical, and not even a hidden cache is filled.
+    (For `==`, `hash`, `copy.copy`, `find_lanelet_by_shape` the same holds by definition: no assignment in the code.) -/
+theorem C18_pure_operations_identity (s : St) :
+    (∀ pid loc dec, (step (.reached pid loc dec) s).1 = s) ∧ (∀ pid src decs, (step (.goalReached pid src decs) s).1 = s) ∧
+    (∀ lid t, (step (.dynByTime lid t) s).1 = s) ∧ (∀ lid paths, (step (.mergeFrom lid paths) s).1 = s) ∧
+    (∀ t, (step (.eq t) s).1 = s) ∧ (∀ t, (step (.hash t) s).1 = s) ∧ (∀ t, (step (.shallowCopy t) s).1 = s) ∧
+    (∀ sh, (step (.findShape sh) s).1 = s) :=
+  ⟨fun _ _ _ => step_fst_eq _ s (Or.inl ⟨_, _, _, rfl⟩),
+   fun _ _ _ => step_fst_eq _ s (Or.inr (Or.inl ⟨_, _, _, rfl⟩)),
+   fun _ _ => step_fst_eq _ s (Or.inr (Or.inr (Or.inr (Or.inr (Or.inr (Or.inr (Or.inl ⟨_, _, rfl⟩))))))),
+   fun _ _ => step_fst_eq _ s (Or.inr (Or.inr (Or.inr (Or.inr (Or.inr (Or.inr (Or.inr ⟨_, _, rfl⟩))))))),
+   fun _ => rfl, fun _ => rfl, fun _ => rfl, fun _ => rfl⟩
+
+/-- C18 (a.5) both writers thread the goal-lanelet table of every planning problem through every lookup and hand the whole
+    state back identical; the lookup never fails (no KeyError for a plain dict with missing keys). -/
 theorem C18_export_total (s : St) (wp : Bool) :
     (∃ f, (step (.writeXml wp) s).2 = .ok (.file f)) ∧ (∃ f, (step (.writePb wp) s).2 = .ok (.file f)) ∧
     (step (.writeXml wp) s).1 = s ∧ (step (.writePb wp) s).1 = s := by
@@ -62,14 +99,68 @@ theorem C18_export_total (s : St) (wp : Bool) :
   · obtain ⟨f, hf⟩ := St.write_ok true wp s
     exact ⟨f, by simp only [step, hf]; rfl⟩
   · obtain ⟨f, hf⟩ := St.write_ok false wp s
-    exact ⟨f, by simp only [step, hf]; rfl⟩
+    exact ⟨f, by simp only [step, pbLook_eq, hf]; rfl⟩
   · simp only [step, St.write_fst]
-  · simp only [step, St.write_fst]
+  · simp only [step, pbLook_eq, St.write_fst]
+
+/-- C18 (a.6) `copy.copy` shares its children: the copy of a scenario / obstacle / planning problem IS the state (hidden caches
+    included), the copy of a lanelet network differs only in having an index of its own.  (definitional: documents the model) -/
+theorem C18_shallow_copy_shares (s : St) (tgt : Target) :
+    (tgt ≠ .net → (step (.shallowCopy tgt) s).2 = .ok (.copy s)) ∧
+    (step (.shallowCopy .net) s).2 = .ok (.copy { s with net := { s.net with index := some s.net.lanelets } }) := by
+  constructor
+  · intro h
+    simp only [step, h, if_false]
+  · rfl
+
+/-- C18 (a.7) `obstacles_by_position_intervals`, `map_obstacles_to_lanelets`, `Lanelet.get_obstacles` and draw + render leave
+    the lanelet network (lanelets, registries, index), the planning problems and `Extra` literally unchanged; the first
+    three also the traffic lights.  (definitional: these fields are not threaded through the occupancy queries; what the
+    queries do to the obstacles is `C18_obs_frame` with (a.1).) -/
+theorem C18_occupancy_readers (s : St) :
+    (∀ t ins, (step (.byIntervals t ins) s).1.net = s.net ∧ (step (.byIntervals t ins) s).1.problems = s.problems ∧
+              (step (.byIntervals t ins) s).1.lights = s.lights) ∧
+    (∀ oids rel, (step (.mapObstacles oids rel) s).1.net = s.net ∧ (step (.mapObstacles oids rel) s).1.problems = s.problems ∧
+              (step (.mapObstacles oids rel) s).1.lights = s.lights) ∧
+    (∀ lid oids t rel, (step (.getObstacles lid oids t rel) s).1.net = s.net ∧
+              (step (.getObstacles lid oids t rel) s).1.problems = s.problems ∧ (step (.getObstacles lid oids t rel) s).1.lights = s.lights) ∧
+    (∀ p, (step (.draw p) s).1.net = s.net ∧ (step (.draw p) s).1.problems = s.problems ∧ (step (.draw p) s).1.extra = s.extra) := by
+  refine ⟨fun _ _ => ⟨rfl, rfl, rfl⟩, fun _ _ => ⟨rfl, rfl, rfl⟩, fun _ _ _ _ => ⟨rfl, rfl, rfl⟩, ?_⟩
+  intro p
+  simp only [step]
+  split
+  · exact ⟨rfl, rfl, rfl⟩
+  · split <;> exact ⟨rfl, rfl, rfl⟩
+
+/-! ### Export -/
+
+/-- C18 (b) **the export is a function of the observable state**: what either writer puts into the file — obstacles with
+    all states, planning problems with initial state, goal states and goal lanelets, lanelets, lights and every attribute
+    in `Extra` — and whether it fails is determined by `s.obs`; hidden caches do not enter. -/
+theorem C18_export_function_of_obs (s : St) (wp : Bool) :
+    (step (.writeXml wp) s).2 = (step (.writeXml wp) s.obs).2 ∧ (step (.writePb wp) s).2 = (step (.writePb wp) s.obs).2 := by
+  constructor
+  · simp only [step]
+    rw [St.write_snd_congr goalLanelets true wp s s.obs (St.obs_obs s).symm]
+  · simp only [step]
+    rw [St.write_snd_congr pbLook false wp s s.obs (St.obs_obs s).symm]
+
+/-- C18 (b') **export_same** (corollary of (b) and (a')): exporting before and after any sequence of modelled operations
+    gives the same file, for both writers, with and without planning problems.  No assumption on the hidden caches. -/
+theorem C18_export_same (ops : List Op) (s : St) (wp : Bool) :
+    (step (.writeXml wp) (run ops s)).2 = (step (.writeXml wp) s).2 ∧
+    (step (.writePb wp) (run ops s)).2 = (step (.writePb wp) s).2 := by
+  have h1 := C18_export_function_of_obs (run ops s) wp
+  have h2 := C18_export_function_of_obs s wp
+  rw [run_obs ops s] at h1
+  exact ⟨h1.1.trans h2.1.symm, h1.2.trans h2.2.symm⟩
+
+/-! ### Hidden caches and answers -/
 
 /-- C18 (c) the hidden caches stay consistent with the observable state along every sequence. -/
 theorem C18_caches_consistent (ops : List Op) (s : St) (h : s.Inv) : (run ops s).Inv := run_inv ops s h
 
-/-- C18 (d) **answers are stable**: with consistent caches, the answer of any operation after any sequence of read-only
+/-- C18 (d) **answers are stable**: with consistent caches, the answer of any operation after any sequence of modelled
     operations is the answer it gives right away (a returned copy is compared through `obs`), provided the lanelet index
     is in the same built / not-built condition. -/
 theorem C18_answers_stable_gen (ops : List Op) (op : Op) (s : St) (h : s.Inv)
@@ -77,8 +168,8 @@ theorem C18_answers_stable_gen (ops : List Op) (op : Op) (s : St) (h : s.Inv)
     (step op (run ops s)).2.map Out.obs = (step op s).2.map Out.obs :=
   answer_congr op (run ops s) s (run_inv ops s h) h (run_obs ops s) hi
 
-/-- C18 (d') for a scenario whose lanelet index has been built (every network that got a lanelet through `add_lanelet`,
-    every unpickled or deep-copied network): all answers are stable, including those of `find_lanelet_by_position`. -/
+/-- C18 (d') for a scenario whose lanelet index has been built (every network built through the public constructors, every
+    unpickled or deep-copied network): all answers are stable, including those of `find_lanelet_by_position`. -/
 theorem C18_answers_stable (ops : List Op) (op : Op) (s : St) (h : s.Inv) (hi : s.net.index = some s.net.lanelets) :
     (step op (run ops s)).2.map Out.obs = (step op s).2.map Out.obs := by
   apply C18_answers_stable_gen ops op s h
@@ -94,55 +185,135 @@ theorem C18_deepcopy_index (s : St) :
   · intro h
     simp only [step, Net.deepcopy, Net.rebuild]
     cases s with
-    | mk os net ls ps =>
+    | mk os net ls ps ex =>
       cases net with
       | mk lan idx =>
         simp only at h
         simp only [h]
   · rfl
 
-/-! ### The two defects of the pinned tree, as theorems about the unrepaired definitions -/
+/-! ### The variants: the frame is a statement that fails for the code as it was -/
 
-/-- Before the repair, computing the occupancies of a trajectory whose first state has no `orientation` (and whose heading
-    can be computed from `velocity_y`, `velocity`) changed that state: for every such trajectory. -/
-theorem C18_unrepaired_occupancy_changes_states (sh : Int) (s : TState) (rest : List TState) (o : Ori)
-    (h1 : s.hasattr "orientation" = false) (h2 : stateOri s = .ok o) :
-    (createOccSetOld sh (s :: rest) 0).1 ≠ s :: rest := by
-  have hne : ({ s with attrs := s.attrs ++ [("orientation", some (-1 - ((0 : Nat) : Int)))] } : TState) ≠ s := by
-    intro heq
-    have := congrArg (fun x => x.attrs.length) heq
-    simp at this
-  simp only [createOccSetOld, h1, h2, Bool.false_eq_true, if_false]
-  split
-  · intro heq
-    exact hne (List.cons.inj heq).1
-  · intro heq
-    exact hne (List.cons.inj heq).1
+/-- **Legacy occupancy computation** (`Sem.occWritesOrientation`, the pinned tree): for EVERY scenario state whose first
+    obstacle is a dynamic obstacle with a not yet evaluated trajectory prediction whose first state has no `orientation` but
+    a computable heading, querying its occupancy at any time step after the initial one changes the observable state —
+    whatever the other states, obstacles, lanelets, lights, problems are, and whether or not the query succeeds. -/
+theorem C18_legacy_occupancy_query_changes_states (oid : Nat) (init : TState) (r : Region) (t1 : Int) (st : TState)
+    (ss : List TState) (sh : Int) (rest : List Obstacle) (net : Net) (lights : List Light) (problems : List Problem)
+    (extra : Extra) (t : Int) (ori : Ori)
+    (ht : t > init.t) (h1 : st.hasattr "orientation" = false) (h2 : stateOri st = .ok ori) :
+    let s : St := ⟨.dynamic oid init r (.traj t1 (st :: ss) sh none) :: rest, net, lights, problems, extra⟩
+    (step (sem := Sem.legacy) (.occ oid t) s).1.obs ≠ s.obs := by
+  intro s
+  obtain ⟨tl, c, hp⟩ := Pred.occSet_legacy_head t1 sh st ss ori h1 h2
+  have hne : t ≠ init.t := by omega
+  intro heq
+  have h := congrArg (fun x => x.obstacles.head?) heq
+  simp only [s, step, St.obs, withObstacle, Obstacle.id, if_true, Obstacle.occAt, hne, if_false, ht, ne_eq, reduceCtorEq,
+    not_false_eq_true, and_self, Pred.occAt, hp, List.map_cons, List.head?_cons, Obstacle.obs, Pred.obs, Option.some.injEq,
+    Obstacle.dynamic.injEq, Pred.traj.injEq, List.cons.injEq, true_and, and_true] at h
+  exact withOri_ne st 0 h.1
 
-/-- the repaired computation reads the same states and touches nothing (it has no state output at all);
-    a concrete CustomState(position, velocity, velocity_y): the old code appended `orientation`. -/
-example :
-    let s : TState := ⟨1, false, [("position", some 0), ("velocity", some 1), ("velocity_y", some 2)]⟩
-    (createOccSetOld 7 [s] 0).1 = [{ s with attrs := s.attrs ++ [("orientation", some (-1))] }] ∧
-    createOccSet 7 [s] = .ok [⟨1, 1, .placed 7 0 (.atan2 2 1)⟩] := by decide
+/-- The same family on the level of the computation: legacy `_create_occupancy_set` replaces such a first state. -/
+theorem C18_legacy_occupancy_computation_changes_states (sh : Int) (st : TState) (ss : List TState) (ori : Ori)
+    (h1 : st.hasattr "orientation" = false) (h2 : stateOri st = .ok ori) :
+    (createOccSet (sem := Sem.legacy) sh (st :: ss)).1 ≠ st :: ss := by
+  obtain ⟨tl, htl⟩ := createOccLoop_legacy_head sh st ss 0 ori h1 h2
+  simp only [createOccSet, htl]
+  intro h
+  exact withOri_ne st 0 (List.cons.inj h).1
 
-/-- Before the repair, the protobuf writer changed the observable state: a `defaultdict` goal-lanelet table with a missing
-    key got that key inserted … -/
-theorem C18_unrepaired_pb_writer_inserts :
-    let s : St := ⟨[], ⟨[], none⟩, [], [⟨900, [true, true], some ⟨.dflt, [(1, [100])]⟩⟩]⟩
-    (stepPbOld true s).1.obs ≠ s.obs ∧
-    (stepPbOld true s).1.problems = [⟨900, [true, true], some ⟨.dflt, [(1, [100]), (0, [])]⟩⟩] := by decide
+/-- **Legacy protobuf writer** (`Sem.pbIndexesTable`, the pinned tree) on a `defaultdict`: for EVERY scenario state whose
+    first planning problem has a `collections.defaultdict(list)` goal-lanelet table that lacks the index of one of its goal
+    states, writing protobuf changes that planning problem (its table gets longer) — whatever the rest of the state is. -/
+theorem C18_legacy_pb_writer_inserts (p : Problem) (items : List (Nat × List Nat)) (rest : List Problem) (os : List Obstacle)
+    (net : Net) (lights : List Light) (extra : Extra) (k : Nat)
+    (ht : p.tbl = some ⟨.dflt, items⟩) (hk : k < p.goals.length) (hmiss : items.lookup k = none) :
+    let s : St := ⟨os, net, lights, p :: rest, extra⟩
+    (step (sem := Sem.legacy) (.writePb true) s).1.obs ≠ s.obs := by
+  intro s heq
+  have hlen : k < p.hasPos.length := by simpa [Problem.hasPos, Problem.goalFields] using hk
+  obtain ⟨items', h1, _, h3⟩ := goalLoopOld_dflt false p.hasPos items 0
+  have hlt := h3 ⟨k, hlen, by simpa using hmiss⟩
+  have h := congrArg (fun x => x.problems.head?.map (·.tbl)) heq
+  have hw : (Problem.write goalLaneletsOld false p).1.tbl = some ⟨.dflt, items'⟩ := by
+    simp only [Problem.write, ht, h1]
+  have hhead : (problemsWrite goalLaneletsOld false (p :: rest)).1.head?.map (·.tbl) = some (some ⟨.dflt, items'⟩) := by
+    simp only [problemsWrite]
+    split <;> simp only [List.head?_cons, Option.map_some, hw]
+  have hl : pbLook (sem := Sem.legacy) = goalLaneletsOld := rfl
+  simp only [s, step, St.obs, St.write, if_true, hl, hhead, List.head?_cons, Option.map_some, ht, Option.some.injEq,
+    Tbl.mk.injEq, true_and] at h
+  rw [h] at hlt
+  exact Nat.lt_irrefl _ hlt
 
-/-- … and a plain `dict` with a missing key made it fail with KeyError, where the repaired writer writes the file. -/
-theorem C18_unrepaired_pb_writer_keyerror :
-    let s : St := ⟨[], ⟨[], none⟩, [], [⟨900, [true, true], some ⟨.plain, [(1, [100])]⟩⟩]⟩
-    (stepPbOld true s).2 = .error .key ∧
-    (step (.writePb true) s).2 = .ok (.file ⟨[], [(900, [[], [100]])]⟩) := by decide
+/-- **Legacy protobuf writer** on a plain `dict`: for EVERY scenario state whose first planning problem has a plain-dict table
+    that lacks the index of one of its goal states, writing protobuf fails with KeyError — where the code as it is writes
+    the file (`C18_export_total`) and the XML writer always did. -/
+theorem C18_legacy_pb_writer_keyerror (p : Problem) (items : List (Nat × List Nat)) (rest : List Problem) (os : List Obstacle)
+    (net : Net) (lights : List Light) (extra : Extra) (k : Nat)
+    (ht : p.tbl = some ⟨.plain, items⟩) (hk : k < p.goals.length) (hmiss : items.lookup k = none) :
+    let s : St := ⟨os, net, lights, p :: rest, extra⟩
+    (step (sem := Sem.legacy) (.writePb true) s).2 = .error .key ∧ (∃ f, (step (.writePb true) s).2 = .ok (.file f)) := by
+  intro s
+  have hlen : k < p.hasPos.length := by simpa [Problem.hasPos, Problem.goalFields] using hk
+  have h := goalLoopOld_plain false p.hasPos items 0 ⟨k, hlen, by simpa using hmiss⟩
+  refine ⟨?_, (C18_export_total s true).2.1⟩
+  have hw : (Problem.write goalLaneletsOld false p).2 = .error .key := by
+    simp only [Problem.write, ht, h.1]; rfl
+  have hl : pbLook (sem := Sem.legacy) = goalLaneletsOld := rfl
+  simp only [s, step, St.write, if_true, hl, problemsWrite, hw]
+  rfl
+
+/-- **Legacy merge** (`Sem.mergeInPlace`, the pinned tree): whenever the second lanelet carries a static obstacle id the
+    first one lacks, `merge_lanelets` changed the first lanelet's registry; the repaired merge returns it as it was. -/
+theorem C18_legacy_merge_changes_first_lanelet (a b : Regs) (x : Nat) (hx : x ∈ b.staticObs) (hn : x ∉ a.staticObs) :
+    (mergeRegsOf (sem := Sem.legacy) a b).1 ≠ a ∧ (mergeRegsOf a b).1 = a := by
+  constructor
+  · intro h
+    have hl := unionIds_length a.staticObs b.staticObs x hx hn
+    have hm : mergeRegsOf (sem := Sem.legacy) = mergeRegsOld := rfl
+    have := congrArg (fun r => r.staticObs.length) h
+    simp only [hm, mergeRegsOld] at this
+    omega
+  · rfl
+
+/-! ### Witnesses on literals (each is one concrete instance, not a general statement) -/
+
+/-- two consecutive lanelets; obstacle 1 is registered on the second one, obstacle 2 on the first at t = 1; query point 0 and
+    query shape 5 lie on the first; light 400 is valid for the first -/
+def exampleLanelets : List Lanelet :=
+  [{ id := 100, cells := [0, 5], succ := [101], dynObs := [(1, [2])], lights := [400] },
+   { id := 101, cells := [], pred := [100], staticObs := [1], dynObs := [(1, [7]), (2, [2])] }]
+
+/-- witness: the seeded `_harmonize_state_types` without the copy (`state_new = state`) writes the speed into the caller's
+    state — a state with heading and both velocity components, checked against a goal that constrains the velocity -/
+theorem C18_seeded_is_reached_without_copy_witness :
+    let st : TState := ⟨3, false, [("position", some 0), ("orientation", some 1), ("velocity", some 2), ("velocity_y", some 3)]⟩
+    (isReached (sem := Sem.seeded) [["velocity"]] st [.ok true]).1 =
+      { st with attrs := [("position", some 0), ("orientation", some 1), ("velocity", some (-1)), ("velocity_y", some 3)] } ∧
+    (isReached [["velocity"]] st [.ok true]).1 = st ∧ (isReached [["velocity"]] st [.ok true]).2 = .ok true := by decide
+
+/-- the seeded `dynamic_obstacle_by_time_step` with `setdefault`: for EVERY lanelet and every time step that is not a key of
+    its registry the query appends that key; the code as it is returns the lanelet as it was -/
+theorem C18_seeded_setdefault_inserts (l : Lanelet) (t : Int) (h : l.dynObs.lookup t = none) :
+    (l.dynByTimeOf (sem := Sem.seeded) t).1.dynObs = l.dynObs ++ [(t, [])] ∧ (l.dynByTimeOf t).1 = l := by
+  constructor
+  · have hd : l.dynByTimeOf (sem := Sem.seeded) t = l.dynByTimeSetdefault t := rfl
+    simp only [hd, Lanelet.dynByTimeSetdefault, h]
+  · rw [dynByTimeOf_eq, Lanelet.dynByTime_fst]
+
+/-- witness: the legacy merge query on the example network changes lanelet 100, the repaired one does not and answers with
+    the united registries -/
+theorem C18_legacy_merge_witness :
+    (mergePaths (mergeRegsOf (sem := Sem.legacy)) 100 [[101]] exampleLanelets).1 ≠ exampleLanelets ∧
+    (mergePaths mergeRegsOf 100 [[101]] exampleLanelets).1 = exampleLanelets ∧
+    (mergePaths mergeRegsOf 100 [[101]] exampleLanelets).2 = .ok [⟨[1], [(1, [2, 7]), (2, [2])]⟩] := by decide
 
 /-! ### Non-vacuity: a concrete scenario, consistent caches, operations that do fill the hidden caches -/
 
 /-- one static obstacle, one dynamic obstacle with a two-state CustomState(position, velocity, velocity_y) trajectory, a
-    phantom obstacle, one lanelet containing query point 0, one light, one planning problem with a defaultdict table -/
+    phantom obstacle, the two example lanelets, one light, one planning problem with a defaultdict table that lacks key 0 -/
 def exampleSt : St :=
   { obstacles := [
       .static 1 ⟨0, false, [("position", some 0), ("orientation", some 1)]⟩ (.placed 5 0 (.tok 1)),
@@ -150,12 +321,22 @@ def exampleSt : St :=
         (.traj 1 [⟨1, false, [("position", some 10), ("velocity", some 11), ("velocity_y", some 12)]⟩,
                   ⟨2, false, [("position", some 13), ("velocity", some 14), ("velocity_y", some 15)]⟩] 6 none),
       .phantom 3 (.setBased [⟨1, 3, 8⟩])],
-    net := ⟨[⟨100, [0]⟩], some [⟨100, [0]⟩]⟩,
-    lights := [⟨400, [(0, 2), (3, 1)], 1, none⟩],
-    problems := [⟨900, [true, false], some ⟨.dflt, [(1, [100])]⟩⟩] }
+    net := ⟨exampleLanelets, some exampleLanelets⟩,
+    lights := [{ id := 400, es := [(0, 2), (3, 1)], off := 1, cache := none }],
+    problems := [{ id := 900, init := ⟨0, false, [("position", some 20), ("orientation", some 21), ("velocity", some 22)]⟩,
+                   goals := [[("time_step", 30), ("position", 31), ("velocity", 32)], [("time_step", 33), ("orientation", 34)]],
+                   tbl := some ⟨.dflt, [(1, [100])]⟩ }],
+    extra := { scenario := [("dt", 40), ("author", 41)], lanelets := [(100, [("left_vertices", 42)]), (101, [("left_vertices", 43)])],
+               obstacles := [(1, [("obstacle_type", 44)]), (2, [("obstacle_type", 45), ("signal_series", 46)])] } }
+
+def exampleDraw : DrawP := { scenario := true, tb := 0, te := 3, drawOcc := true, drawIcon := false, iconIds := [], history := 0 }
 
 def exampleOps : List Op :=
-  [.occ 2 2, .occs 1 none, .findPos [0, 1], .light 400 5, .deepcopy, .writePb true, .writeXml true, .reads [2] [400], .pickle]
+  [.occ 2 2, .occs 1 none, .findPos [0, 1], .light 400 5, .deepcopy, .writePb true, .writeXml true, .reads [2] [400], .pickle,
+   .reached 900 (.obsTraj 2 1) [.ok true, .ok false], .goalReached 900 (.own 2) [[.ok false, .ok false], [.ok false, .ok true]],
+   .reached 900 .probInit [.ok false, .ok false],
+   .eq .scenario, .hash (.obstacle 2), .shallowCopy .net, .byIntervals 1 [2], .findShape 5, .mapObstacles [1, 2] [(100, 2)],
+   .getObstacles 100 [2] 2 [(100, 2)], .dynByTime 100 7, .mergeFrom 100 [[101]], .draw exampleDraw]
 
 example : exampleSt.Inv := by
   refine ⟨?_, Or.inr rfl, ?_⟩
@@ -171,18 +352,35 @@ example : exampleSt.net.index = some exampleSt.net.lanelets := rfl
 example : run exampleOps exampleSt ≠ exampleSt := by decide
 /-- … while the observable part is untouched (instance of `C18_obs_frame_run`) -/
 example : (run exampleOps exampleSt).obs = exampleSt.obs := C18_obs_frame_run _ _
+/-- the same operations under the legacy variant DO change the observable state (the hypotheses of the legacy theorems are
+    satisfiable: obstacle 2 has an orientation-less trajectory, the table lacks key 0) -/
+example : (run (sem := Sem.legacy) exampleOps exampleSt).obs ≠ exampleSt.obs := by decide
+example : (step (sem := Sem.legacy) (.writePb true) exampleSt).1.problems.map (·.tbl) = [some ⟨.dflt, [(1, [100]), (0, [])]⟩] := by decide
 /-- answers are non-trivial: the occupancy at t = 2 comes from the second trajectory state with a computed heading -/
 example : (step (.occ 2 2) exampleSt).2 = .ok (.occ (some ⟨2, 2, .placed 6 13 (.atan2 15 14)⟩)) := by decide
 example : (step (.findPos [0, 1]) exampleSt).2 = .ok (.idss [[100], []]) := by decide
+example : (step (.findShape 5) exampleSt).2 = .ok (.ids [100]) := by decide
 example : (step (.light 400 5) exampleSt).2 = .ok (.nat 0) := by decide
 example : (step (.writeXml true) exampleSt).2 =
-    .ok (.file ⟨[⟨1, [("position", 0), ("orientation", 1)], [], []⟩,
-                 ⟨2, [("position", 2), ("orientation", 3)],
-                     [(1, [("position", 10), ("velocity", 11), ("velocity_y", 12)]),
-                      (2, [("position", 13), ("velocity", 14), ("velocity_y", 15)])], []⟩,
-                 ⟨3, [], [], [⟨1, 3, 8⟩]⟩],
-                [(900, [[], []])]⟩) := by decide
+    .ok (.file { obstacles := [⟨1, [("position", 0), ("orientation", 1)], [], []⟩,
+                               ⟨2, [("position", 2), ("orientation", 3)],
+                                   [(1, [("position", 10), ("velocity", 11), ("velocity_y", 12)]),
+                                    (2, [("position", 13), ("velocity", 14), ("velocity_y", 15)])], []⟩,
+                               ⟨3, [], [], [⟨1, 3, 8⟩]⟩],
+                 problems := [⟨900, [("position", 20), ("orientation", 21), ("velocity", 22)],
+                               [[("time_step", 30), ("position", 31), ("velocity", 32)], [("time_step", 33), ("orientation", 34)]], [[], []]⟩],
+                 lanelets := [⟨100, [101], [], [400]⟩, ⟨101, [], [100], []⟩],
+                 lights := [⟨400, [(0, 2), (3, 1)], 1, true⟩],
+                 extra := exampleSt.extra }) := by decide
 example : (step (.writePb true) exampleSt).2 = (step (.writePb true) (run exampleOps exampleSt)).2 :=
   ((C18_export_same exampleOps exampleSt true).2).symm
+example : (step (.reached 900 (.obsTraj 2 1) [.ok false, .ok true]) exampleSt).2 = .ok (.bool true) := by decide
+example : (step (.reached 900 (.obsInit 1) [.ok true, .ok true]) exampleSt).2 = .error .value := by decide
+example : (step (.reached 900 .probInit [.ok true, .ok false]) exampleSt).2 = .ok (.bool true) := by decide
+example : (step (.byIntervals 1 [2]) exampleSt).2 = .ok (.ids [2]) := by decide
+example : (step (.mapObstacles [1, 2] [(100, 2)]) exampleSt).2 = .ok (.mapping [(100, [2])]) := by decide
+example : (step (.dynByTime 101 1) exampleSt).2 = .ok (.ids [7]) := by decide
+/-- drawing with occupancies from t = 0 to 3 fills the occupancy cache of obstacle 2 and the cache of the light -/
+example : (step (.draw exampleDraw) exampleSt).1 ≠ exampleSt ∧ (step (.draw exampleDraw) exampleSt).2 = .ok .unit := by decide
 
 end CR.Frame
